@@ -460,6 +460,8 @@ pub struct SampleEntry {
     pub config: ConfigRecord,
     pub child_types: Vec<[u8; 4]>,
     pub is_visual: bool,
+    /// the configuration record could not be decoded (judged by C07/C16/C19, not by the box grammar)
+    pub config_err: Option<String>,
 }
 
 fn read_desc_len(p: &[u8], o: &mut usize) -> R<usize> {
@@ -645,6 +647,7 @@ pub fn dec_sample_entry(d: &[u8], n: &Node) -> R<SampleEntry> {
         config: ConfigRecord::None,
         child_types: n.kids.iter().map(|k| k.typ).collect(),
         is_visual,
+        config_err: None,
     };
     if is_visual {
         se.width = be16(p, 24)?;
@@ -656,19 +659,28 @@ pub fn dec_sample_entry(d: &[u8], n: &Node) -> R<SampleEntry> {
     }
     for k in &n.kids {
         let kp = k.payload(d);
-        let rec = match &k.typ {
-            b"avcC" => Some(dec_avcc(kp)?),
-            b"hvcC" => Some(dec_hvcc(kp)?),
+        let rec: Option<R<ConfigRecord>> = match &k.typ {
+            b"avcC" => Some(dec_avcc(kp)),
+            b"hvcC" => Some(dec_hvcc(kp)),
             b"av1C" => {
                 if kp.len() < 4 {
-                    return Err(format!("av1C payload {} bytes < 4", kp.len()));
+                    Some(Err(format!("av1C payload {} bytes < 4", kp.len())))
+                } else {
+                    Some(Ok(ConfigRecord::Av1 { raw4: [kp[0], kp[1], kp[2], kp[3]], config_obus: kp[4..].to_vec() }))
                 }
-                Some(ConfigRecord::Av1 { raw4: [kp[0], kp[1], kp[2], kp[3]], config_obus: kp[4..].to_vec() })
             }
-            b"vpcC" => Some(ConfigRecord::Vp9Raw { payload: kp.to_vec() }),
-            b"esds" => Some(dec_esds(kp)?),
-            b"dOps" => Some(ConfigRecord::Dops { payload: kp.to_vec() }),
+            b"vpcC" => Some(Ok(ConfigRecord::Vp9Raw { payload: kp.to_vec() })),
+            b"esds" => Some(dec_esds(kp)),
+            b"dOps" => Some(Ok(ConfigRecord::Dops { payload: kp.to_vec() })),
             _ => None,
+        };
+        let rec = match rec {
+            Some(Ok(r)) => Some(r),
+            Some(Err(e)) => {
+                se.config_err = Some(e);
+                Some(ConfigRecord::None)
+            }
+            None => None,
         };
         if let Some(r) = rec {
             se.config_type = k.typ;
